@@ -5,6 +5,29 @@ use std::cell::Cell;
 
 pub struct Counting;
 
+/// A single allocation request of this size (1 TiB) cannot succeed on any machine the checks run on: the process
+/// would be aborted (`handle_alloc_error`), which no oracle could report. The thread's "last words" are run instead.
+pub const ABSURD_REQUEST: usize = 1 << 40;
+
+thread_local! {
+    /// What to do when the code under test asks for an absurd amount of memory on this thread: the engine installs a
+    /// closure that writes the current case out as a violation and ends the process with exit code 1.
+    static LAST_WORDS: std::cell::RefCell<Option<Box<dyn Fn(usize)>>> = const { std::cell::RefCell::new(None) };
+}
+
+pub fn set_last_words(f: Option<Box<dyn Fn(usize)>>) {
+    let _ = LAST_WORDS.try_with(|w| *w.borrow_mut() = f);
+}
+
+#[cold]
+fn absurd(size: usize) {
+    // take the closure out first: whatever it allocates is ordinary, and a second absurd request cannot recurse
+    let f = LAST_WORDS.try_with(|w| w.try_borrow_mut().ok().and_then(|mut g| g.take())).ok().flatten();
+    if let Some(f) = f {
+        f(size);
+    }
+}
+
 thread_local! {
     static WINDOW: Cell<bool> = const { Cell::new(false) };
     static COUNT: Cell<u64> = const { Cell::new(0) };
@@ -25,6 +48,9 @@ fn note(size: usize) {
 unsafe impl GlobalAlloc for Counting {
     unsafe fn alloc(&self, layout: Layout) -> *mut u8 {
         note(layout.size());
+        if layout.size() >= ABSURD_REQUEST {
+            absurd(layout.size());
+        }
         System.alloc(layout)
     }
     unsafe fn dealloc(&self, ptr: *mut u8, layout: Layout) {
@@ -32,10 +58,16 @@ unsafe impl GlobalAlloc for Counting {
     }
     unsafe fn alloc_zeroed(&self, layout: Layout) -> *mut u8 {
         note(layout.size());
+        if layout.size() >= ABSURD_REQUEST {
+            absurd(layout.size());
+        }
         System.alloc_zeroed(layout)
     }
     unsafe fn realloc(&self, ptr: *mut u8, layout: Layout, new_size: usize) -> *mut u8 {
         note(new_size);
+        if new_size >= ABSURD_REQUEST {
+            absurd(new_size);
+        }
         System.realloc(ptr, layout, new_size)
     }
 }
